@@ -264,8 +264,14 @@ def r3(chk, prog):
             continue
         c, tr = guard
         # the other edge must store error_depth into tok->err before leaving
-        br = [u for u in cfg_of(fw).users(c.res) if u.op == "br"][0]
+        br, flip = _branch_on(fw, c)
+        if br is None:
+            chk.undecided(rid, fw.name, sig, st.locstr(), "the comparison of depth with max_depth does not feed a branch directly; R2 decides "
+                          "safety and exactness on the automaton for the analysed limits")
+            continue
         t, e = br.x["targets"]
+        if flip:
+            t, e = e, t
         fail_blk = fw.blocks[t if not tr else e]
         sets = any(i.op == "store" and i.ops[0].kind == "int" and i.ops[0].v == edepth and P.path(i.ops[1]).endswith("err") for i in fail_blk.instrs)
         if sets:
@@ -279,6 +285,29 @@ def r3(chk, prog):
         chk.refuted(rid, f.name, "recursion", f.entry.term.locstr(), "json_tokener_parse_ex is reachable from itself: C stack use grows with the input")
     else:
         chk.proven(rid, f.name, "recursion", f.entry.term.locstr(), "not reachable from itself through %d callees" % len(reach))
+
+
+def _branch_on(fw, c):
+    """the conditional branch decided by comparison c, possibly through a materialised boolean (zext, != 0, == 0, xor 1):
+    (branch, polarity flipped?) or (None, False)"""
+    cfg = cfg_of(fw)
+    work = [(c.res, False, 0)]
+    while work:
+        r, flip, d = work.pop()
+        for u in cfg.users(r):
+            if u.op == "br" and len(u.x.get("targets", ())) == 2:
+                return u, flip
+            if d >= 5:
+                continue
+            if u.op in ("zext", "sext", "trunc"):
+                work.append((u.res, flip, d + 1))
+            elif u.op == "xor" and any(o.kind == "int" and o.v in (1, -1, True) for o in u.ops):
+                work.append((u.res, not flip, d + 1))
+            elif u.op == "icmp" and u.x["pred"] in ("eq", "ne") and any(o.kind == "int" and o.v == 0 for o in u.ops):
+                work.append((u.res, flip != (u.x["pred"] == "eq"), d + 1))
+            elif u.op == "phi" and len(u.x["incoming"]) == 1:
+                work.append((u.res, flip, d + 1))
+    return None, False
 
 
 class _DepthPE(pe.PE):
